@@ -26,6 +26,10 @@ pub struct Axis {
     /// user -> design mapping nodes (empty = identity)
     pub map: Vec<(f64, f64)>,
     pub hidden: bool,
+    /// `<labelname xml:lang="..">..</labelname>` children of `<axis>`, (xml:lang, string), written in
+    /// this order (designspace: the `en` one is the axis' UI name, else the `name` attribute is)
+    #[serde(default)]
+    pub labelnames: Vec<(String, String)>,
 }
 
 impl Axis {
@@ -38,6 +42,7 @@ impl Axis {
             max,
             map: vec![],
             hidden: false,
+            labelnames: vec![],
         }
     }
     /// piecewise-linear user -> design (designspace `<map>` semantics; identity when no map)
@@ -248,6 +253,21 @@ pub struct Design {
     pub write_skip_export: bool,
 }
 
+/// Options of the designspace writer that are not part of the design itself (how a location is
+/// spelled, not what it says). `DsOpts::default()` = the plain writer.
+#[derive(Debug, Clone, PartialEq, Serialize, Deserialize, Default)]
+pub struct DsOpts {
+    /// instance index -> axis indices whose `<dimension>` is left out of that instance's
+    /// `<location>` (designspace semantics: a missing dimension sits at the axis default, so the
+    /// instance's `user_loc` should hold the axis default there)
+    #[serde(default)]
+    pub instance_omit: BTreeMap<usize, Vec<usize>>,
+    /// instance index -> further `<dimension name=.. xvalue=..>` elements written verbatim after
+    /// the axes' own (e.g. one naming an axis the document does not declare)
+    #[serde(default)]
+    pub instance_extra_dims: BTreeMap<usize, Vec<(String, f64)>>,
+}
+
 impl Design {
     /// A static or variable skeleton with the given axes and full masters at the given design locations.
     pub fn skeleton(family: &str, axes: Vec<Axis>, master_locs: Vec<Vec<f64>>) -> Design {
@@ -381,6 +401,11 @@ impl Design {
     }
 
     pub fn designspace_xml(&self) -> String {
+        self.designspace_xml_with(&DsOpts::default())
+    }
+
+    /// `designspace_xml` with writer options (see [`DsOpts`]); the default options give the same text.
+    pub fn designspace_xml_with(&self, opts: &DsOpts) -> String {
         let mut s = String::new();
         s.push_str("<?xml version='1.0' encoding='UTF-8'?>\n<designspace format=\"4.1\">\n");
         if !self.axes.is_empty() {
@@ -396,10 +421,14 @@ impl Design {
                     num(a.default),
                     if a.hidden { " hidden=\"1\"" } else { "" }
                 );
-                if a.map.is_empty() {
+                if a.map.is_empty() && a.labelnames.is_empty() {
                     s.push_str("/>\n");
                 } else {
                     s.push_str(">\n");
+                    // fontTools' writer puts the labelname elements before the map elements
+                    for (lang, text) in &a.labelnames {
+                        let _ = writeln!(s, "      <labelname xml:lang=\"{}\">{}</labelname>", xml(lang), xml(text));
+                    }
                     for (u, d) in &a.map {
                         let _ = writeln!(s, "      <map input=\"{}\" output=\"{}\"/>", num(*u), num(*d));
                     }
@@ -461,7 +490,7 @@ impl Design {
         s.push_str("  </sources>\n");
         if !self.instances.is_empty() {
             s.push_str("  <instances>\n");
-            for i in &self.instances {
+            for (ii, i) in self.instances.iter().enumerate() {
                 let fam = i.family.clone().unwrap_or(self.family.clone());
                 let _ = write!(
                     s,
@@ -481,7 +510,25 @@ impl Design {
                     .zip(&i.user_loc)
                     .map(|(a, u)| a.user_to_design(*u))
                     .collect();
-                self.write_location(&mut s, &dloc, "      ");
+                let omit = opts.instance_omit.get(&ii);
+                let extra = opts.instance_extra_dims.get(&ii);
+                if omit.is_none() && extra.is_none() {
+                    self.write_location(&mut s, &dloc, "      ");
+                } else {
+                    // a location that leaves out some dimensions (a missing dimension means the
+                    // axis default) and/or carries further, verbatim dimensions
+                    s.push_str("      <location>\n");
+                    for (ai, (a, v)) in self.axes.iter().zip(&dloc).enumerate() {
+                        if omit.is_some_and(|o| o.contains(&ai)) {
+                            continue;
+                        }
+                        let _ = writeln!(s, "        <dimension name=\"{}\" xvalue=\"{}\"/>", xml(&a.name), num(*v));
+                    }
+                    for (name, v) in extra.into_iter().flatten() {
+                        let _ = writeln!(s, "        <dimension name=\"{}\" xvalue=\"{}\"/>", xml(name), num(*v));
+                    }
+                    s.push_str("      </location>\n");
+                }
                 s.push_str("    </instance>\n");
             }
             s.push_str("  </instances>\n");
